@@ -29,11 +29,11 @@ def spec(tier, seed, repo):
                      "collisions of honest random values (probability < 2^-140) are ignored",
                      "message 0 (sent by the repository test) is only used in the lib-vs-lib part"],
         floors={
-            "lib_xfer_1of2": 12, "lib_xfer_1ofN": 150 if quick else 1000, "lib_xfer_1ofN_optimized": 150 if quick else 1000,
-            "lib_output_equal_M_sigma": 300 if quick else 2000,
-            "curious_attempts": 500, "blinding_pairs_derived": 150, "curious_own_index_ok": 60,
+            "lib_xfer_1of2": 24, "lib_xfer_1ofN": 300 if quick else 2000, "lib_xfer_1ofN_optimized": 300 if quick else 2000,
+            "lib_output_equal_M_sigma": 600 if quick else 4000,
+            "curious_attempts": 2000, "blinding_pairs_derived": 800, "curious_own_index_ok": 150,
             "curious_xfer_1of2": 4, "curious_xfer_1ofN": 30, "curious_xfer_1ofN_optimized": 30,
-            "coinciding_z_moves": 20, "malformed_refused": 150, "malformed_stillwellformed_accepted": 10,
+            "coinciding_z_moves": 40, "malformed_refused": 500, "malformed_stillwellformed_accepted": 50,
             "class_catalogue:p-v": 5, "class_catalogue:v+p": 5, "class_catalogue:random-nonmember": 5,
         },
     )
